@@ -136,8 +136,11 @@ type FuncInfo struct {
 	Sig    string `json:"sig"`
 	NSig   string `json:"nsig"`   // types only, package qualifiers normalised (tfsdk. diag. types. context.)
 	Method bool   `json:"method"` // has a receiver (shared diagnostic types)
-	Text   string `json:"-"`
-	Sha    string `json:"sha"`
+	// API: the name has one of the three documented forms (GenSchema<T>, Copy<T>FromTerraform, Copy<T>ToTerraform).
+	// The properties speak about exactly these functions; helpers of the shared code are not theirs to judge.
+	API  bool   `json:"api"`
+	Text string `json:"-"`
+	Sha  string `json:"sha"`
 }
 
 // AltResult is what was observed of an alternative rendering of a run.
@@ -433,7 +436,7 @@ func analyse(r *GenResult) {
 				method = true
 			}
 			s := sha256.Sum256(txt.Bytes())
-			r.Funcs = append(r.Funcs, FuncInfo{Name: name, Sig: sig.String(), NSig: normSig(fset, x.Type), Method: method,
+			r.Funcs = append(r.Funcs, FuncInfo{Name: name, Sig: sig.String(), NSig: normSig(fset, x.Type), Method: method, API: !method && reAPIFunc.MatchString(name),
 				Text: txt.String(), Sha: hex.EncodeToString(s[:8])})
 		case *ast.GenDecl:
 			if x.Tok == token.TYPE {
@@ -650,6 +653,7 @@ func (e *Env) GenerateAll(vs []Variant, par int) ([]*GenResult, error) {
 	return res, nil
 }
 
+var reAPIFunc = regexp.MustCompile(`^(GenSchema.+|Copy.+(From|To)Terraform)$`)
 var rePkgHeader = regexp.MustCompile(`(?m)^# (ws/\S+)`)
 var reFileLine = regexp.MustCompile(`^(\S+)/[^/\s]+\.go:\d+`)
 
